@@ -300,6 +300,7 @@ type Worker struct {
 	observes        []obsRec
 	constCache      map[*ssa.Const]Value
 	randSeq         int
+	poisoned        bool // this path took a zero-float-divisor side (value outside the finite-real model)
 	stubs           map[string]Value
 	models          []*evalModel
 	CacheHits       int
@@ -379,6 +380,7 @@ func (w *Worker) runPath(j Job) {
 	w.gmpSeq = 0
 	w.observes = w.observes[:0]
 	w.randSeq = 0
+	w.poisoned = false
 	w.stubs = nil
 	w.taskSeq, w.curTask = 0, 0
 	w.cfg = w.ex.cfg
@@ -893,7 +895,7 @@ func (w *Worker) maybeWitness() {
 	e.mu.Lock()
 	n := len(e.witnesses)
 	e.mu.Unlock()
-	if n >= e.cfg.Witnesses || w.randSeq > 0 {
+	if n >= e.cfg.Witnesses || w.randSeq > 0 || w.poisoned {
 		return
 	}
 	var obsTerms []*Term
